@@ -145,6 +145,19 @@ def single_function_rules(chk, rel, pr):
         for s in cand:
             if not any(s is x for x, _ in M.overwriting_stores(R)):
                 chk.ok("c-overwrite", "%s: %s" % (fn, s.text))
+        for s, lc in M.skipped_assignments(R):
+            c, line = lc[0]
+            chk.violation("c-skip-assign", lib_rel(rel), fn, s.text, s.line,
+                          "this statement ASSIGNS the block of output `%s` it addresses (%s), but the `continue` at "
+                          "line %d skips it when `%s` holds: on that path the block keeps the previous contents of the "
+                          "caller's buffer instead of the (zero) result, while the twin direction only accumulates and "
+                          "is unaffected by the same skip" % (
+                              M.show_atom(s.root), "DGEMM with BETA=0 writes its M x N block even when K=0"
+                              if s.gemm else "`=` store", line, M.show(c)), instance="%s: %s" % (fn, s.text))
+        for s in R.stores:
+            if s.op == "=" and s.root[0] == "par" and s.root in R.data_roots and s.root not in R.leaf_reads \
+                    and not any(s is x for x, _ in M.skipped_assignments(R)):
+                chk.ok("c-skip-assign", "%s: %s" % (fn, s.text))
         acc = [s for s in R.stores if s.op == "+=" and s.root[0] == "par" and s.root in R.data_roots]
         mixed = M.mixed_mode_roots(R)
         seen = set()
@@ -1154,9 +1167,9 @@ def rule_py_extent(chk, tree):
             continue
         est = {}   # array text -> (c, extent text)
         for st in fn.body:
-            if isinstance(st, ast.Assert) and isinstance(st.test, ast.Compare) and len(st.test.ops) == 1 \
-                    and isinstance(st.test.ops[0], ast.Eq):
-                l, r = st.test.left, st.test.comparators[0]
+            tst = asserted_condition(st)
+            if isinstance(tst, ast.Compare) and len(tst.ops) == 1 and isinstance(tst.ops[0], ast.Eq):
+                l, r = tst.left, tst.comparators[0]
                 if isinstance(l, ast.BinOp) and isinstance(l.op, ast.FloorDiv) and isinstance(l.right, ast.Constant) \
                         and isinstance(l.left, ast.Call) and M._callee_name(l.left) == "len" and l.left.args \
                         and isinstance(l.left.args[0], ast.Subscript):
@@ -1263,18 +1276,37 @@ def rule_py_guarded_attr(chk, tree):
                                           sorted(gs) or "no condition"), instance=inst)
 
 
+def asserted_condition(st):
+    """`assert c[, msg]`  ==  `if not c: raise ...`  ==  `if <negated compare>: raise ...`  -> c (ast) or None"""
+    if isinstance(st, ast.Assert):
+        return st.test
+    if isinstance(st, ast.If) and not st.orelse and st.body and isinstance(st.body[-1], ast.Raise) \
+            and all(isinstance(x, (ast.Raise, ast.Expr, ast.Pass)) for x in st.body):
+        t = st.test
+        if isinstance(t, ast.UnaryOp) and isinstance(t.op, ast.Not):
+            return t.operand
+        if isinstance(t, ast.Compare) and len(t.ops) == 1:
+            inv = {ast.NotEq: ast.Eq, ast.Eq: ast.NotEq, ast.Lt: ast.GtE, ast.GtE: ast.Lt, ast.Gt: ast.LtE, ast.LtE: ast.Gt}
+            if type(t.ops[0]) in inv:
+                return ast.Compare(left=t.left, ops=[inv[type(t.ops[0])]()], comparators=t.comparators)
+    return None
+
+
 class _ShapeWalker(M.Tracer):
     """collects `X = np.zeros(shape)` under `if X is None` and `assert X.shape == shape`"""
 
     def stmt(self, st):
-        if isinstance(st, ast.Assert):
-            t = st.test
+        t = asserted_condition(st)
+        if t is not None:
             if isinstance(t, ast.Compare) and len(t.ops) == 1 and isinstance(t.ops[0], ast.Eq) \
                     and isinstance(t.left, ast.Attribute) and t.left.attr == "shape" and isinstance(t.left.value, ast.Name) \
                     and isinstance(t.comparators[0], ast.Tuple):
                 self.__dict__.setdefault("asserts", []).append(
                     (t.left.value.id, M.canon_py(t.comparators[0], self.env), tuple(g for _, g in self.guards), st))
-            return
+            if isinstance(st, ast.Assert):
+                return
+            if isinstance(t, ast.Compare) and isinstance(t.left, ast.Attribute) and t.left.attr == "shape":
+                return
         if isinstance(st, ast.Assign) and len(st.targets) == 1 and isinstance(st.targets[0], ast.Name) \
                 and isinstance(st.value, ast.Call) and M._callee_name(st.value) in ("zeros", "empty") and st.value.args \
                 and isinstance(st.value.args[0], ast.Tuple):
@@ -1328,6 +1360,7 @@ def _analyse_own(chk):
     chk.rule("c-mirror", "C pair: backward linear updates = forward ones with end points exchanged")
     chk.rule("c-dirflag", "one C function with a direction flag: the two specialisations are transposes")
     chk.rule("c-overwrite", "no overwriting store inside a loop that does not select the written element")
+    chk.rule("c-skip-assign", "no data-dependent `continue` skips an overwriting store of an output block")
     chk.rule("c-mixed", "an output array is not partly overwritten and partly accumulated")
     tus = cfacts.load_all(tree, C_FILES)
     chk.count("C translation units", len(tus))
@@ -1371,6 +1404,7 @@ def _analyse_own(chk):
     chk.floor("c-mirror", 13, "13 designated forward/backward C pairs, all comparable today")
     chk.floor("c-dirflag", 2, "multiply_atc_integrals and multiply_atc_integrals_vk")
     chk.floor("c-overwrite", 3, "kill+add stores and BETA=0 DGEMMs into parameter arrays")
+    chk.floor("c-skip-assign", 12, "overwriting stores into output parameters of the designated kernels")
     chk.floor("c-mixed", 13, "accumulated output arrays")
     chk.assumptions += [
         "iteration spaces of a forward and a backward loop nest driven by different index tables "
@@ -1551,6 +1585,21 @@ def mutants(tree):
         Mutant("parent default output allocated with the wrong width", LC,
                "output = np.zeros((self.atco_inp.nao, self.nalpha))", "output = np.zeros((self.atco_inp.nao, self.nbeta))",
                expect="py-default-shape"),
+        # ---- round 13: a skipped overwriting assignment
+        Mutant("empty radial interval skips the BETA=0 DGEMM of compute_pot_convs_single_new", I,
+               "            gq_ind = 0;\n            for (g = loc_i[ir]; g < loc_i[ir + 1]; g++) {\n                gp = ind_ord_fwd[g];\n"
+               "                f_gq_tmp = f_gq + gp * nalpha;\n                for (p = 0; p < 4; p++) {\n"
+               "                    spline_contrib = auxo_gp[g * 4 + p];\n                    for (q = 0; q < nalpha; q++, gq_ind++) {\n"
+               "                        f_gpq_buf[gq_ind] =",
+               "            if (ng == 0) {\n                continue;\n            }\n"
+               "            gq_ind = 0;\n            for (g = loc_i[ir]; g < loc_i[ir + 1]; g++) {\n                gp = ind_ord_fwd[g];\n"
+               "                f_gq_tmp = f_gq + gp * nalpha;\n                for (p = 0; p < 4; p++) {\n"
+               "                    spline_contrib = auxo_gp[g * 4 + p];\n                    for (q = 0; q < nalpha; q++, gq_ind++) {\n"
+               "                        f_gpq_buf[gq_ind] =", expect="c-skip-assign"),
+        Mutant("empty angular shell skips the BETA=0 DGEMM of reduce_angc_to_ylm", G,
+               "            theta_wq = theta_gq + rad_loc[r] * stride;\n            dgemm_(&NTRANS, &TRANS,",
+               "            theta_wq = theta_gq + rad_loc[r] * stride;\n            if (nw < 1)\n                continue;\n"
+               "            dgemm_(&NTRANS, &TRANS,", expect="c-skip-assign"),
         # ---- Python compositions
         Mutant("swap call order in spline2conv", LI,
                "            self._orb2spline_(\n                self.l1atco,\n                f_arlpq,\n                f1_uq,\n"
